@@ -2,6 +2,7 @@
 namespace Larking.Expected.C20
 
 def conds_NewServer : List String := [
+   "func NewServer(mux *Mux, opts ...ServerOption) (*http.Server, error)",
    "if mux == nil",
    "return nil, fmt.Errorf(\"invalid mux must not be nil\")",
    "range opts",
@@ -31,6 +32,7 @@ def stmts_NewServer : List String := [
   ]
 
 def conds_HTTPHandlerOption : List String := [
+   "func HTTPHandlerOption(pattern string, handler http.Handler) ServerOption",
    "return func(opts *serverOptions) error { if opts.serveMux == nil { opts.serveMux = http.NewServeMux() } opts.serveMux.Handle(pattern, handler) return nil }",
    "if opts.serveMux == nil",
    "return nil"
@@ -43,6 +45,7 @@ def stmts_HTTPHandlerOption : List String := [
   ]
 
 def conds_MuxHandleOption : List String := [
+   "func MuxHandleOption(patterns ...string) ServerOption",
    "return func(opts *serverOptions) error { if opts.muxPatterns != nil { return fmt.Errorf(\"duplicate mux patterns registered\") } opts.muxPatterns = patterns return nil }",
    "if opts.muxPatterns != nil",
    "return fmt.Errorf(\"duplicate mux patterns registered\")",
@@ -55,6 +58,7 @@ def stmts_MuxHandleOption : List String := [
   ]
 
 def conds_Mux_ServeHTTP : List String := [
+   "func (*Mux) ServeHTTP(w http.ResponseWriter, r *http.Request)",
    "if r.ProtoMajor == 2 && strings.HasPrefix( r.Header.Get(\"Content-Type\"), \"application/grpc\", )",
    "return",
    "if strings.HasPrefix( r.Header.Get(\"Content-Type\"), \"application/grpc-web\", )",
@@ -70,6 +74,17 @@ def stmts_Mux_ServeHTTP : List String := [
    "r.URL.Path = strings.TrimSuffix(r.URL.Path, \"/\")",
    "err := m.serveHTTP(w, r)",
    "m.encError(w, r, err)"
+  ]
+
+def conds_TLSCredsOption : List String := [
+   "func TLSCredsOption(c *tls.Config) ServerOption",
+   "return func(opts *serverOptions) error { opts.tlsConfig = c return nil }",
+   "return nil"
+  ]
+
+def stmts_TLSCredsOption : List String := [
+   "func-literal",
+   "opts.tlsConfig = c"
   ]
 
 end Larking.Expected.C20
